@@ -94,18 +94,22 @@ class ExpressionTokenTranslator(AbstractTranslator):
                 parts[-1].append(item)
 
         result = cls._group(parts[0], level + 1, excel, context)
+        # The operators of one level associate to the left exactly as Python's do, so a chain shares one pair of brackets:
+        # (a+b+c) instead of ((a+b)+c). Python refuses code with more than 200 nested brackets (a sum of 200 cells).
+        chain = None
         for operator, part in zip(operators, parts[1:]):
             right_operand = cls._group(part, level + 1, excel, context)
             operator_code = OperatorSubTokenTranslator.translate(operator, excel, context)
             if isinstance(operator, cls._COMPARE_TOKENS):
-                result = f'self._compare("{operator_code}", {result}, {right_operand})'
+                result, chain = f'self._compare("{operator_code}", {result}, {right_operand})', None
             elif isinstance(operator, AmpersandToken):
-                result = f'(self._excel_value_to_string({result}){operator_code}' \
-                         f'self._excel_value_to_string({right_operand}))'
+                left_operand = result[1:-1] if chain == 'text' else f'self._excel_value_to_string({result})'
+                result, chain = f'({left_operand}{operator_code}self._excel_value_to_string({right_operand}))', 'text'
             elif result.startswith(cls._NORMALIZE):
                 # an operation on a percent stays normalized to 15 significant digits: 7% * 12 is 0.84
-                result = f'{cls._NORMALIZE}({result}{operator_code}{right_operand})'
+                result, chain = f'{cls._NORMALIZE}({result}{operator_code}{right_operand})', None
             else:
-                result = f'({result}{operator_code}{right_operand})'
+                left_operand = result[1:-1] if chain == 'number' else result
+                result, chain = f'({left_operand}{operator_code}{right_operand})', 'number'
 
         return result
